@@ -325,7 +325,9 @@ Definition final_pop (checked : bool) (rg : regs) (m : mem) : cb_result rule reg
     else if checked then CbErrV rg else CbPanic S_pe_own_add
   end.
 
-Definition pe_eff_alloc := mkeff true true.
+(* the unwind-code path: before the fix for S16 it collected the chained infos and the operations into
+   Vecs under every allocation policy (alloc = true); now the chain is walked in place *)
+Definition pe_eff_alloc := mkeff true false.
 Definition pe_eff := mkeff true false.
 
 Definition pe_step (checked : bool) (pe : pe_data) (address : N) (first : bool) (rg : regs) (m : mem)
